@@ -21,7 +21,7 @@ from vmon.res import Result, exc_name, capture_stdout
 
 ID = "C20"
 LEVEL = "exploration"
-CASES = {"quick": 6000, "thorough": 120000}
+CASES = {"quick": 6000, "thorough": 240000}
 RULE = ("seeded random Vectors, DataFrames, GeoJSON frames (incl. null geometries) and ListOfDicts over all dtypes (incl. float32, uint64, bytes, "
         "timedelta, complex, object cells holding dicts/lists/multi-line strings), NaN/+-inf/huge/tiny floats in one column, wide / combining / "
         "non-BMP characters, 0-row and 0-column shapes x max_rows>=1, max_width>=5, truncate_width>=1, max_elements, max_items>=0, PRINT_* "
